@@ -7,7 +7,7 @@
 use crate::case::Case;
 use crate::model::{self, POLICIES};
 use crate::oracle::{self, Digest, Finding, Summary};
-use crate::world::{Obs, Recorded, World};
+use crate::world::{Coord, Obs, Recorded, World};
 use serde_json::{Value, json};
 use std::collections::BTreeMap;
 use std::time::Instant;
@@ -26,6 +26,12 @@ pub struct Plan {
     pub rotate_batches: usize,
     /// the histories of one group must agree with each other (false: groups are only batching units)
     pub compare_within_group: bool,
+    /// read-coordinate dimension: every batch is also projected at the snapshot taken right after it was
+    /// recorded — once at once and once after later unrelated writes, one of the two reads bound by
+    /// `AS OF SEQ`, the other by the snapshot token (alternating from batch to batch, so all four
+    /// combinations occur). Historical reads scan the whole version log of the Space, so this wants
+    /// small batches and frequent rotation.
+    pub coordinates: bool,
 }
 
 #[derive(Default)]
@@ -38,6 +44,9 @@ pub struct Outcome {
     pub entry_point_checks: u64,
     pub restab_checks: u64,
     pub order_comparisons: u64,
+    /// projections at a historical coordinate compared with the model / with the read at "now"
+    pub coordinate_projections: u64,
+    pub coordinate_comparisons: u64,
     /// evidence note: ineligible assertions about the other value of a slot, not listed in the answer
     pub other_value_unlisted: u64,
     pub statuses: BTreeMap<String, u64>,
@@ -70,6 +79,7 @@ fn push_findings(
     pol: usize,
     about_rival: bool,
     batch: &[Case],
+    coord: &str,
 ) {
     for f in findings {
         let case = cases[cases.len() - 1];
@@ -82,11 +92,16 @@ fn push_findings(
         } else {
             case.short()
         };
+        let law = if coord == "now" {
+            f.law.clone()
+        } else {
+            format!("{}@{coord}", f.law)
+        };
         out.push(violation(
-            &f.law,
+            &law,
             case.functional,
             format!(
-                "{} | history {} | projecting {} at {} under '{}'",
+                "{} | history {} | projecting {} at {} under '{}', read coordinate: {coord}",
                 f.detail,
                 history,
                 if about_rival { "v1" } else { "v0" },
@@ -99,6 +114,7 @@ fn push_findings(
                 "query": {"at": at, "policy": pol},
                 "about_rival": about_rival,
                 "batch": batch,
+                "coordinate": coord,
             }),
         ));
     }
@@ -109,6 +125,9 @@ struct Pending {
     functional: bool,
     seen: BTreeMap<String, Obs>,
     cases: Vec<Case>,
+    recs: Vec<Recorded>,
+    /// the coordinate right after the batch was recorded, bound the way the fresh read was NOT
+    past: Option<Coord>,
 }
 
 /// Checks every projection of one recorded batch; returns per query and case the digest of the v0 projection.
@@ -119,9 +138,17 @@ fn check_batch(
     recs: &[Recorded],
     plan: &Plan,
     with_entry_points: bool,
+    coord: &str,
     out: &mut Outcome,
 ) -> (Vec<Vec<Option<Digest>>>, BTreeMap<String, Obs>) {
     let functional = cases[0].functional;
+    let law_at = |law: &str| {
+        if coord == "now" {
+            law.to_string()
+        } else {
+            format!("{law}@{coord}")
+        }
+    };
     let mut reference: Vec<Vec<Option<Digest>>> = vec![vec![None; cases.len()]; plan.queries.len()];
     let mut reference_obs = BTreeMap::new();
     for (qi, &(at, pol)) in plan.queries.iter().enumerate() {
@@ -134,14 +161,18 @@ fn check_batch(
                 };
                 let Some(obs) = seen.get(prop) else {
                     out.violations.push(violation(
-                        "no-answer",
+                        &law_at("no-answer"),
                         functional,
-                        format!("stored proposition {prop} of history {} got no projection row", case.short()),
-                        json!({"relation": "single", "cases": [case], "query": {"at": at, "policy": pol}, "about_rival": rival, "batch": cases}),
+                        format!("stored proposition {prop} of history {} got no projection row, read coordinate: {coord}", case.short()),
+                        json!({"relation": "single", "cases": [case], "query": {"at": at, "policy": pol}, "about_rival": rival, "batch": cases, "coordinate": coord}),
                     ));
                     continue;
                 };
-                out.evaluations += 1;
+                if coord == "now" {
+                    out.evaluations += 1;
+                } else {
+                    out.coordinate_projections += 1;
+                }
                 let (findings, digest) = oracle::check_projection(
                     case,
                     case.events.len(),
@@ -160,8 +191,9 @@ fn check_batch(
                     pol,
                     rival,
                     cases,
+                    coord,
                 );
-                if let Some(d) = &digest {
+                if let (Some(d), true) = (&digest, coord == "now") {
                     out.other_value_unlisted += d.other_value_unlisted;
                     *out.statuses.entry(d.status.clone()).or_insert(0) += 1;
                 }
@@ -177,10 +209,10 @@ fn check_batch(
                 .sum::<usize>()
         {
             out.violations.push(violation(
-                "cross-proposition-influence",
+                &law_at("cross-proposition-influence"),
                 functional,
-                format!("batch query returned {} projections for a different number of stored propositions", seen.len()),
-                json!({"relation": "single", "cases": [cases[0]], "query": {"at": at, "policy": pol}, "about_rival": false, "batch": cases}),
+                format!("batch query returned {} projections for a different number of stored propositions, read coordinate: {coord}", seen.len()),
+                json!({"relation": "single", "cases": [cases[0]], "query": {"at": at, "policy": pol}, "about_rival": false, "batch": cases, "coordinate": coord}),
             ));
         }
         if qi == 0 {
@@ -198,6 +230,7 @@ fn check_batch(
             &reference_obs,
             out,
             cases,
+            coord,
         );
     }
     (reference, reference_obs)
@@ -213,14 +246,21 @@ fn entry_points(
     seen: &BTreeMap<String, Obs>,
     out: &mut Outcome,
     batch: &[Case],
+    coord: &str,
 ) {
     let policy = &POLICIES[pol];
+    let mut violations = Vec::new();
     let mut report = |what: &str, detail: String| {
-        out.violations.push(violation(
-            &format!("entry-point-disagrees|{what}"),
+        let law = if coord == "now" {
+            format!("entry-point-disagrees|{what}")
+        } else {
+            format!("entry-point-disagrees|{what}@{coord}")
+        };
+        violations.push(violation(
+            &law,
             case.functional,
-            format!("{detail} | history {}", case.short()),
-            json!({"relation": "single", "cases": [case], "query": {"at": at, "policy": pol}, "about_rival": false, "batch": batch, "entry_points": true}),
+            format!("{detail} | history {}, read coordinate: {coord}", case.short()),
+            json!({"relation": "single", "cases": [case], "query": {"at": at, "policy": pol}, "about_rival": false, "batch": batch, "entry_points": true, "coordinate": coord}),
         ));
     };
     for rival in [false, true] {
@@ -269,9 +309,34 @@ fn entry_points(
         }
         Err(e) => report("slot", format!("BELIEF SLOT refused: {e}")),
     }
+    out.violations.extend(violations);
 }
 
-/// Records and checks `groups` (each: histories that must agree) on `world`.
+/// A batch read again at the coordinate taken right after it was recorded, now that later writes exist.
+fn check_past(world: &mut World, prev: &Pending, plan: &Plan, out: &mut Outcome) {
+    let Some(coord) = &prev.past else {
+        return;
+    };
+    let reference_only = Plan {
+        queries: plan.queries[..1].to_vec(),
+        ..plan.clone()
+    };
+    let label = format!("past-{}", coord.label());
+    world.coord = coord.clone();
+    check_batch(
+        world,
+        &prev.batch,
+        &prev.cases,
+        &prev.recs,
+        &reference_only,
+        false,
+        &label,
+        out,
+    );
+    world.coord = Coord::Now;
+}
+
+/// Records and checks `groups` (each: histories that must agree) on fresh Worlds.
 pub fn run_groups(
     tag: &str,
     groups: &[Vec<Case>],
@@ -285,13 +350,18 @@ pub fn run_groups(
     out.worlds = 1;
     let mut batches_here = 0usize;
     let mut batch_no = 0usize;
-    let retire = |w: &World, out: &mut Outcome| {
+    // the last batch of a World has no successor: one unrelated write makes its snapshot a past one
+    let close = |w: &mut World, previous: &mut Option<Pending>, out: &mut Outcome| {
+        if let (true, Some(prev)) = (plan.coordinates, previous.take()) {
+            w.touch();
+            check_past(w, &prev, plan, out);
+        }
         out.statements += w.statements;
         out.queries += w.queries;
     };
     while i < groups.len() {
         if batches_here >= plan.rotate_batches.max(1) {
-            retire(&world, &mut out);
+            close(&mut world, &mut previous, &mut out);
             world = World::new(&format!("{tag}w{}", out.worlds));
             out.worlds += 1;
             batches_here = 0;
@@ -328,8 +398,50 @@ pub fn run_groups(
             &recs,
             plan,
             with_entry_points,
+            "now",
             &mut out,
         );
+        // read-coordinate dimension: the same batch at its own snapshot
+        let mut past = None;
+        if plan.coordinates {
+            let (seq, token) = world.snapshot();
+            let (fresh, later) = if batch_no % 2 == 1 {
+                (Coord::AsOfSeq(seq), Coord::Token(token))
+            } else {
+                (Coord::Token(token), Coord::AsOfSeq(seq))
+            };
+            past = Some(later);
+            {
+                let coord = fresh;
+                let label = coord.label();
+                let slot_too = with_entry_points;
+                world.coord = coord;
+                let (then, _) = check_batch(
+                    world, &batch, &cases, &recs, plan, slot_too, label, &mut out,
+                );
+                world.coord = Coord::Now;
+                for (qi, &(at, pol)) in plan.queries.iter().enumerate() {
+                    for c in 0..cases.len() {
+                        let (Some(now), Some(then)) = (&reference[qi][c], &then[qi][c]) else {
+                            continue;
+                        };
+                        out.coordinate_comparisons += 1;
+                        let findings = oracle::compare_coordinates(now, then);
+                        push_findings(
+                            &mut out.violations,
+                            findings,
+                            &[&cases[c]],
+                            "single",
+                            at,
+                            pol,
+                            false,
+                            &cases,
+                            label,
+                        );
+                    }
+                }
+            }
+        }
         for (start, len) in spans {
             for (qi, &(at, pol)) in plan.queries.iter().enumerate() {
                 let Some(first) = &reference[qi][start] else {
@@ -356,42 +468,50 @@ pub fn run_groups(
                         pol,
                         false,
                         &[],
+                        "now",
                     );
                 }
             }
         }
         let (at, pol) = plan.queries[0];
         // projections of the previous batch must not have moved because this batch was recorded
-        if plan.restab {
+        if plan.restab || plan.coordinates {
             if let Some(prev) = previous.take() {
-                out.restab_checks += 1;
-                let again = world.project_batch(&prev.batch, prev.functional, at, &POLICIES[pol]);
-                if again != prev.seen {
-                    let moved: Vec<&String> = prev
-                        .seen
-                        .iter()
-                        .filter(|(k, v)| again.get(*k) != Some(v))
-                        .map(|(k, _)| k)
-                        .collect();
-                    let mut both = prev.cases.clone();
-                    both.extend(cases.iter().cloned());
-                    out.violations.push(violation(
-                        "cross-proposition-influence",
-                        prev.functional,
-                        format!("projections of {moved:?} changed after statements about unrelated subjects were recorded"),
-                        json!({"relation": "restab", "cases": [prev.cases[0]], "query": {"at": at, "policy": pol}, "about_rival": false, "batch": both, "first_batch": prev.cases.len()}),
-                    ));
+                if plan.restab {
+                    out.restab_checks += 1;
+                    let again =
+                        world.project_batch(&prev.batch, prev.functional, at, &POLICIES[pol]);
+                    if again != prev.seen {
+                        let moved: Vec<&String> = prev
+                            .seen
+                            .iter()
+                            .filter(|(k, v)| again.get(*k) != Some(v))
+                            .map(|(k, _)| k)
+                            .collect();
+                        let mut both = prev.cases.clone();
+                        both.extend(cases.iter().cloned());
+                        out.violations.push(violation(
+                            "cross-proposition-influence",
+                            prev.functional,
+                            format!("projections of {moved:?} changed after statements about unrelated subjects were recorded"),
+                            json!({"relation": "restab", "cases": [prev.cases[0]], "query": {"at": at, "policy": pol}, "about_rival": false, "batch": both, "first_batch": prev.cases.len()}),
+                        ));
+                    }
                 }
+                // ... and its own snapshot, now a genuinely past coordinate, still answers the same
+                check_past(world, &prev, plan, &mut out);
             }
             previous = Some(Pending {
                 batch,
                 functional,
                 seen,
                 cases,
+                recs,
+                past,
             });
         }
     }
-    retire(&world, &mut out);
+    close(&mut world, &mut previous, &mut out);
     out
 }
 
@@ -411,6 +531,11 @@ pub fn replay(doc: &Value) -> Vec<Violation> {
         batch_cases: 10_000,
         rotate_batches: usize::MAX,
         compare_within_group: true,
+        // a violation first seen at a historical coordinate is replayed with the coordinate dimension on
+        coordinates: r["coordinate"]
+            .as_str()
+            .map(|c| c != "now")
+            .unwrap_or(false),
     };
     let mut found = Vec::new();
     match relation {
